@@ -21,7 +21,7 @@ def attrsOf : Node → List (AttrName × List AttrVal)
 /-- the drawn geometry: a function of the fragments, the scale and nothing else -/
 def geometry (len : List Char → Nat) (scaleN scaleD : Nat) (accepted : List Frag)
     (groups : List (List Frag)) : List Node :=
-  fragmentsToNodes len (1000 * scaleD) (accepted.map (Frag.scale scaleN)) ++
+  fragmentsToNodes len scaleN accepted ++
     groups.map fun g => Node.elem .g [] (g.map fun f => (f.scale scaleN).toNode)
 
 /-- size actually used for root and backdrop -/
